@@ -68,5 +68,23 @@ Proof.
 Qed.
 Print Assumptions C07_answers_along_every_legal_game.
 
-(* C07_check_mate_material_partial: in_check / checkmate / stalemate / insufficient material as coded are not refined by a theorem;
+(* insufficient material: Position::enough_material counts through the piece lists; with the list invariant (every entry a square that holds
+   that piece, once; the lists cover the board - part of KeyScratch.piece_inv, established by the constructor and preserved by do_move) the
+   answer is the property's definition - bare kings or a single minor piece - of the position represented, along every legal game *)
+From CV Require Import Engine.KeyScratch Engine.Material.
+Theorem C07_insufficient_material_is_counted_on_the_board :
+  forall (zt : zobrist) (s : rep), piece_inv zt s -> enough_material s = negb (insufficient_material (brd (rep_abs s))).
+Proof. exact enough_material_refines. Qed.
+Print Assumptions C07_insufficient_material_is_counted_on_the_board.
+
+Theorem C07_material_along_every_legal_game :
+  forall (zt : zobrist) (p0 : position) (ms : list move),
+    valid_position p0 = true -> legal_line p0 ms = true -> (clock p0 + Z.of_nat (length ms) < 255)%Z ->
+    enough_material (play_rep zt (rep_of_position zt p0) ms) = negb (insufficient_material (brd (play p0 ms))).
+Proof.
+  intros zt p0 ms Hv Hl Hn. destruct (valid_hyps p0 Hv) as [Hg [Hc Hf]]. exact (game_material zt p0 ms Hg Hc Hf Hl Hn).
+Qed.
+Print Assumptions C07_material_along_every_legal_game.
+
+(* C07_check_mate_partial: in_check / checkmate / stalemate as coded (bitboard attack tests) are not refined by a theorem;
    they are compared with the spec after every ply of the generated games. *)
